@@ -40,7 +40,9 @@ def run(chk):
              ("resumable_wait", sc.resumable_wait(), (("Resp", "x0", 1),)),
              # a wait_for_event whose timeout fires (the step goes on after its TimeoutError): the waiter_timeout tick is part
              # of the persisted history that a restart rebuilds the run from
-             ("wait_timeout_then_stop", sc.wait_timeout_then_stop(5), ())]
+             ("wait_timeout_then_stop", sc.wait_timeout_then_stop(5), ()),
+             # equal-valued inputs: one running, one queued at the stop
+             ("resumable_equal(2)", sc.resumable_equal(2), ())]
     if not chk.quick:
         progs += [("resumable(1,3,2,1)", sc.resumable(1, 3, 2, 1), ()), ("resumable(2,2,3,1,delay=2)", sc.resumable(2, 2, 3, 1, 2), ())]
     orders = [("fifo", 0), ("lifo", 0)] if chk.quick else [("fifo", 0), ("lifo", 0), ("rand", chk.seed), ("rand", chk.seed + 1)]
